@@ -13,7 +13,7 @@ import (
 func c19Scenarios(tier string) []*Scenario {
 	bound := 1
 	if tier == "thorough" {
-		bound = 2
+		bound = 3
 	}
 	var out []*Scenario
 	add := func(name string, stack []Spec, exes []ExeSpec) {
